@@ -441,7 +441,7 @@ fn run_managed_threads(trace: &Value) {
 fn main() {
     let path = std::env::args().nth(1).expect("usage: dp-replay <trace.json>");
     let trace: Value = serde_json::from_str(&std::fs::read_to_string(&path).unwrap()).unwrap();
-    std::panic::set_hook(Box::new(|_| {}));
+    if std::env::var("DP_REPLAY_DEBUG").is_err() { std::panic::set_hook(Box::new(|_| {})); }
     match trace["kind"].as_str().unwrap() {
         "managed" => if trace["threads"].as_bool().unwrap_or(false) { run_managed_threads(&trace) } else { run_managed(&trace) },
         "unmanaged" => unmanaged::run(&trace),
